@@ -73,7 +73,7 @@ class C06(common.Prop):
         out = []
         while len(out) < n:
             c = molgen.layered_case(rng, nmax=rng.choice([5, 8, 10]), coarse_last=rng.random() < 0.3,
-                                    squash=rng.random() < 0.4)
+                                    squash=rng.random() < 0.4, reuse_names=rng.random() < 0.35)
             if c is None:
                 continue
             # a history on ONE resolver object, beyond the three fresh ways
@@ -200,7 +200,7 @@ class C06(common.Prop):
 
     def case_class(self, case, impl):
         return 'levels=%s %s%s' % (case.get('levels'), 'coarse-last' if case['coarse_last'] else 'atomistic-last',
-                                   ' shared-node' if case.get('squash') else '')
+                                   (' shared-node' if case.get('squash') else '') + (' reused-names' if case.get('reuse_names') else ''))
 
     def nontrivial(self, case, impl):
         return case.get('nparts', 2) >= 2
